@@ -1,5 +1,5 @@
 (* C02 - no two different block proposals for one slot; slots strictly increase. *)
-From DV Require Import Model.Instance Proofs.SignerProofs Proofs.InstanceProofs Proofs.Examples Proofs.ExampleProofs.
+From DV Require Import Model.Paths Proofs.PathsProofs Model.Instance Proofs.SignerProofs Proofs.InstanceProofs Proofs.Examples Proofs.ExampleProofs.
 Local Open Scope Z_scope.
 
 (* For every configuration with the 2^63 guard, initial store, finite history (as in C01: all
@@ -26,3 +26,24 @@ Proof. split; [exact ex_history_ok|vm_compute; reflexivity]. Qed.
 Lemma C02_refuted_legacy :
   exists h a, Forall op_ok h /\ released_prop 1 (snd (run (ex_cfg false) empty_store h)) = [a; a].
 Proof. exact C02_legacy_witness. Qed.
+
+(* "Over its lifetime", restarts in between: the proposal watermarks bind a restarted daemon only if it
+   opens the same store again.  main.go opens the store at util.ResolvePath(storage-path); for every
+   path, the location depends on the configured base directory and the user's home directory only -
+   not on the directory the daemon is started from - and it is absolute whenever those two are. *)
+Theorem C02_store_found_again_after_restart :
+  forall (e1 e2 : penv) (p : string),
+    pe_home e1 = pe_home e2 -> pe_base e1 = pe_base e2 ->
+    resolve_path e1 p = resolve_path e2 p /\
+    (is_abs (pe_home e1) = true -> (pe_base e1 = ""%string \/ is_abs (pe_base e1) = true) -> is_abs (resolve_path e1 p) = true).
+Proof. intros e1 e2 p Hh Hb; split; [exact (resolve_path_ignores_cwd e1 e2 p Hh Hb)|exact (resolve_path_abs e1 p)]. Qed.
+Print Assumptions C02_store_found_again_after_restart.
+
+(* a variant that falls back to the working directory when no home directory is known opens another store *)
+Lemma C02_refuted_cwd_fallback :
+  let e1 := {| pe_cwd := "/"; pe_home := "/root"; pe_base := "" |} in
+  let e2 := {| pe_cwd := "/tmp"; pe_home := "/root"; pe_base := "" |} in
+  (resolve_path_cwd_fallback false e1 "storage" = "/storage" /\
+   resolve_path_cwd_fallback false e2 "storage" = "/tmp/storage" /\
+   resolve_path e1 "storage" = "/root/storage" /\ resolve_path e2 "storage" = "/root/storage")%string.
+Proof. exact cwd_fallback_witness. Qed.
